@@ -2,10 +2,14 @@
 
    /repo/internal/helpers/quote.go
      canPrintWithoutEscape                    -> can_print
+     isInvalidByte                            -> is_invalid_byte
      QuoteForJSON = internalQuote(.., DQUOTE)  -> quote_for_json   (quote_step is one loop iteration)
    fmt.Sprintf of %d for the byte counts      -> dec
    /repo/internal/config/config.go
      MetafileFormat.MaybeRemoveWhitespace     -> remove_ws
+   /repo/internal/linker/linker.go
+     escapeFinalPath(path, isCSS = false)     -> escape_final  (the form used for JS and JSON strings;
+       the early return for a path without such characters gives the same bytes as the loop)
 
    DecodeWTF8Rune, rune_units, hexc, esc_u4 are the C01 models of
    internal/helpers/utf.go and of the hexChars indexing (C01/Utf.v, C01/Quote.v),
@@ -26,10 +30,12 @@ Definition esc_json (c : Z) : bytes :=
   else let c' := c - 65536 in
        esc_u4 (55296 + (c' / 1024) mod 1024) ++ esc_u4 (56320 + c' mod 1024).
 
+Definition is_invalid_byte (c w : Z) : bool := (c =? 65533) && (w <=? 1).
+
 (* one iteration: (bytes appended, bytes of the input consumed) *)
 Definition quote_step (ascii : bool) (s : bytes) : bytes * nat :=
   let '(c, w) := DecodeWTF8Rune s in
-  if can_print c ascii then (firstn (Z.to_nat w) s, Z.to_nat w)
+  if can_print c ascii && negb (is_invalid_byte c w) then (firstn (Z.to_nat w) s, Z.to_nat w)
   else if c =? 8 then ([92; 98], 1%nat)
   else if c =? 12 then ([92; 102], 1%nat)
   else if c =? 10 then ([92; 110], 1%nat)
@@ -75,3 +81,13 @@ Definition dec (n : Z) : bytes := dec_digits 20 n.
 
 Definition remove_ws (s : bytes) : bytes :=
   filter (fun c => negb ((c =? 32) || (c =? 10))) s.
+
+(* fmt %x digit *)
+Definition hexl (d : Z) : Z := if d <? 10 then 48 + d else 87 + d.
+
+Definition esc_final_byte (c : Z) : bytes :=
+  if (c =? 34) || (c =? 92) then [92; c]
+  else if 32 <=? c then [c]
+  else [92; 117; 48; 48; hexl (c / 16); hexl (c mod 16)].
+
+Definition escape_final (p : bytes) : bytes := flat_map esc_final_byte p.
